@@ -1,0 +1,146 @@
+//! Verification hooks: seams for a deterministic simulator. This module is only
+//! compiled with `--cfg isographlabs_isograph_verif`; without the flag the crate
+//! is exactly the shipped code.
+//!
+//! All state is thread local: a simulation runs on one thread and installs the
+//! hooks it needs before calling into the compiler.
+
+use std::{any::Any, cell::Cell, cell::RefCell, io, path::Path, path::PathBuf};
+
+use artifact_content::FileSystemState;
+use common_lang_types::{ArtifactPathAndContent, FileSystemOperation, LocationFreeDiagnosticResult};
+use isograph_config::CompilerConfig;
+use notify::Error;
+use notify_debouncer_full::DebouncedEvent;
+use tokio::sync::mpsc::Receiver;
+
+use crate::watch::{ChangedFileKind, SourceEventKind, SourceFileEvent};
+
+/// What the fault hook decides for one file-system operation.
+pub enum FsFault {
+    /// perform the operation normally
+    Proceed,
+    /// the hook performed (part of) the operation itself; report success
+    Handled,
+    /// the hook performed none / part / all of the operation itself; report this error
+    Fail(io::Error),
+}
+
+pub type FsFaultHook =
+    Box<dyn FnMut(usize, &FileSystemOperation, &[ArtifactPathAndContent]) -> FsFault>;
+pub type WatchBatch = Result<Vec<(SourceEventKind, ChangedFileKind)>, Vec<Error>>;
+pub type AfterIterationHook = Box<dyn FnMut(&mut dyn Any)>;
+pub type OrderPathsHook = Box<dyn FnMut(&mut Vec<PathBuf>)>;
+
+thread_local! {
+    static FS_FAULT_HOOK: RefCell<Option<FsFaultHook>> = const { RefCell::new(None) };
+    static WATCH_RECEIVER: RefCell<Option<Receiver<WatchBatch>>> = const { RefCell::new(None) };
+    static AFTER_ITERATION: RefCell<Option<AfterIterationHook>> = const { RefCell::new(None) };
+    static GC_DUE: Cell<bool> = const { Cell::new(false) };
+    static ORDER_PATHS: RefCell<Option<OrderPathsHook>> = const { RefCell::new(None) };
+}
+
+pub fn set_fs_fault_hook(hook: Option<FsFaultHook>) {
+    FS_FAULT_HOOK.with(|h| *h.borrow_mut() = hook);
+}
+
+/// Called by `apply_file_system_operations` before each operation.
+pub(crate) fn fs_fault_point(
+    index: usize,
+    operation: &FileSystemOperation,
+    artifacts: &[ArtifactPathAndContent],
+) -> FsFault {
+    // the hook is taken out while it runs, so that it may unwind (simulated process kill)
+    let hook = FS_FAULT_HOOK.with(|h| h.borrow_mut().take());
+    match hook {
+        None => FsFault::Proceed,
+        Some(mut hook) => {
+            let decision = hook(index, operation, artifacts);
+            FS_FAULT_HOOK.with(|h| {
+                let mut h = h.borrow_mut();
+                if h.is_none() {
+                    *h = Some(hook);
+                }
+            });
+            decision
+        }
+    }
+}
+
+pub fn inject_watch_receiver(receiver: Receiver<WatchBatch>) {
+    WATCH_RECEIVER.with(|r| *r.borrow_mut() = Some(receiver));
+}
+
+pub(crate) fn take_injected_watch_receiver() -> Option<Receiver<WatchBatch>> {
+    WATCH_RECEIVER.with(|r| r.borrow_mut().take())
+}
+
+pub fn set_after_watch_iteration(hook: Option<AfterIterationHook>) {
+    AFTER_ITERATION.with(|h| *h.borrow_mut() = hook);
+}
+
+/// Called by the watch loop after each processed batch with `&mut CompilerState<_>`.
+pub(crate) fn after_watch_iteration(state: &mut dyn Any) {
+    let hook = AFTER_ITERATION.with(|h| h.borrow_mut().take());
+    if let Some(mut hook) = hook {
+        hook(state);
+        AFTER_ITERATION.with(|h| {
+            let mut h = h.borrow_mut();
+            if h.is_none() {
+                *h = Some(hook);
+            }
+        });
+    }
+}
+
+/// Makes the next `CompilerState::run_garbage_collection` collect regardless of the
+/// 60 s wall-clock period (the simulator's clock decides).
+pub fn set_gc_due(due: bool) {
+    GC_DUE.with(|g| g.set(due));
+}
+
+pub(crate) fn take_gc_due() -> bool {
+    GC_DUE.with(|g| g.replace(false))
+}
+
+pub fn set_order_paths_hook(hook: Option<OrderPathsHook>) {
+    ORDER_PATHS.with(|h| *h.borrow_mut() = hook);
+}
+
+/// Called by `read_dir_recursive` with the enumerated paths (their order belongs to the
+/// file system; the simulator canonicalises or permutes it).
+pub(crate) fn order_paths(paths: &mut Vec<PathBuf>) {
+    ORDER_PATHS.with(|h| {
+        if let Some(hook) = h.borrow_mut().as_mut() {
+            hook(paths);
+        }
+    });
+}
+
+// ---- access to crate-private functions ----
+
+pub fn get_file_system_operations(
+    paths_and_contents: &[ArtifactPathAndContent],
+    artifact_directory: &Path,
+    file_system_state: &mut Option<FileSystemState>,
+) -> Vec<FileSystemOperation> {
+    crate::write_artifacts::get_file_system_operations(
+        paths_and_contents,
+        artifact_directory,
+        file_system_state,
+    )
+}
+
+pub fn apply_file_system_operations(
+    operations: &[FileSystemOperation],
+    artifacts: &[ArtifactPathAndContent],
+) -> LocationFreeDiagnosticResult<usize> {
+    crate::write_artifacts::apply_file_system_operations(operations, artifacts)
+}
+
+pub fn categorize_and_filter_events(
+    events: &[DebouncedEvent],
+    config: &CompilerConfig,
+) -> Option<Vec<SourceFileEvent>> {
+    crate::watch::verif_categorize_and_filter_events(events, config)
+}
